@@ -26,6 +26,85 @@ var c25Alphabet = []string{
 	"a", "$V", "${V}", "${V:-d}", "${V-d}", "${#V}", "$((1+2))", "'", `"`, `\`, "~", "{a,b}", " ", "$(", ")", "$", "*", `\$V`, "\n",
 }
 
+// Round 3: composite items. The alphabet above can form no operator with an
+// argument word beyond ${V:-d} and no arithmetic beyond 1+2, although
+// shell.Expand / shell.Fields run all of expand's machinery. The items below
+// are whole expansions; they are enumerated in a second, small space (see
+// c25Composites / c25GenComposite): every item alone, inside double quotes,
+// and next to every item of the alphabet.
+
+// c25ReplWords: replacement / default words of zero, one and several parts.
+var c25ReplWords = []string{"", "d", "$V", `"$V"`, "$V-", "a$V", "$V$V", `"$V"z`, `"\$V"`, "'q'"}
+
+// c25OtherOps: one or two forms of every other parameter expansion operator
+// (each owned by C21), some with a multi-part argument word.
+var c25OtherOps = []string{
+	"${V#x}", "${V##* }", "${V%y}", "${V%% *}", `${V#"$V"}`, "${V%$V}", "${V#$V-}",
+	"${V:1}", "${V:1:1}", "${V: -1}", "${V: -4}",
+	"${V^}", "${V^^}", "${V,,}", "${V^^$V}",
+	"${V:+d}", "${V+d}", "${V:+$V-}", "${V:-$V-}", `${V:-"$V"z}`, "${V-a$V}", "${V:-$V$V}",
+	"${V/#x/d}", "${V/%y/d}",
+	"${V:?e}", "${V?}", "${V:=d}", "${V@U}",
+}
+
+// c25ArithTexts: arithmetic with two (or three) operators of different
+// precedence levels, both orders of every adjacent pair of levels, operand
+// values for which the two groupings differ (single-digit literals only).
+var c25ArithTexts = []string{
+	"1|2^3&4", "2+3*4", "1<<2+1", "7&3==3", // mixed, as named in the round 3 brief
+	"3*1**2", "1**2*3", // ** over * / %
+	"1+1*2", "2*1+1", "7-6/2", "7%4-1", // * / % over + -
+	"1+2<<1", "8>>1+1", // + - over << >>
+	"1<2<<1", "2<<1<1", "2>1>>1", // << >> over < <= > >=
+	"2==1<2", "3<2==0", "2!=1>=2", // < over == !=
+	"6&2==2", "2==2&6", "6&2!=2", // == != over &
+	"1^3&2", "2&3^1", // & over ^
+	"1|1^1", "1^1|1", // ^ over |
+	"2&&1|4", "4|1&&2", // | over &&
+	"1||1&&0", "0&&1||1", // && over ||
+	"1||0?2:3", "1?0:0||2", // || over ?:
+	"1?2:3,4", "1,0?2:3", // ?: over ,
+	"-2**2", "!1+1", "~1&1", "-1-1", "2- -1", // unary operators bind tightest
+	"2**3**0", "8-3-2", "8/4/2", "1?2:0?3:4", // associativity
+	"(1|2)^3", "2*(3+1)", // parentheses
+}
+
+func c25Composites() []string {
+	var out []string
+	for _, op := range []string{"/", "//"} {
+		for _, pat := range []string{"x", "?", "*"} {
+			for _, r := range c25ReplWords {
+				out = append(out, "${V"+op+pat+"/"+r+"}")
+			}
+		}
+	}
+	out = append(out, c25OtherOps...)
+	for _, e := range c25ArithTexts {
+		out = append(out, "$(("+e+"))")
+	}
+	return out
+}
+
+// c25GenComposite: for every composite item N the strings N, "N", XN and NX
+// (X any item of the alphabet), and with both (thorough) also XNY.
+func c25GenComposite(both bool, f func(s string)) {
+	for _, n := range c25Composites() {
+		f(n)
+		f(`"` + n + `"`)
+		for _, x := range c25Alphabet {
+			f(x + n)
+			f(n + x)
+		}
+		if both {
+			for _, x := range c25Alphabet {
+				for _, y := range c25Alphabet {
+					f(x + n + y)
+				}
+			}
+		}
+	}
+}
+
 const (
 	c25Home = "/h"
 	c25Pid  = "PID"
@@ -64,7 +143,7 @@ var c25FieldsOK = regexp.MustCompile(`^0:[0-9]+:<`)
 
 func c25(c *vc.Ctx) {
 	maxLen := vc.Pick(c, 4, 5)
-	c.Rule = fmt.Sprintf("all strings of <=%d items over %q x env in {nil func with V absent from the process environment (strings of fewer than %d items only), V=\"\" (must mean unset), V=\"x y\"} x {shell.Expand, shell.Fields}; HOME=%s on both sides. Expand is compared with bash's `IFS= read -r -d '' R <<__E__` of the string (the newline the here-document appends is accounted for); Fields with the positional parameters after `set -f; set -- <s>` (for strings containing a newline: after `A=(<s>)`, where a newline is a word separator as in Parser.WordsSeq). error <=> bash error. Excluded and counted: skipped_trailing_backslash (a here-document body cannot end in an unescaped backslash: bash 5.2 yields a stray 0xFF byte at EOF; for Fields only when the string also has a newline); cmdsubst_refused (the string contains `$(` and shell.Expand/Fields returned an error: command substitution is unsupported by design, so any error is accepted; when it returns a result instead, that result is compared with bash). `$$` is normalised to the text PID on both sides. distinct = distinct (function, result or error kind)", maxLen, c25Alphabet, maxLen, c25Home)
+	c.Rule = fmt.Sprintf("(1) composite items N = ${V op pat / repl} for op in {/ //}, pat in {x ? *}, repl in %q (words of 0, 1 and 2 parts), the other operators %q, and $((E)) for E in %q (two operators of different precedence levels, both orders of every adjacent pair of levels, unary operators, associativity, parentheses): the strings N, \"N\", XN, NX%s for X, Y any item of the alphabet below, x all three envs x both functions; (2) all strings of <=%d items over %q x env in {nil func with V absent from the process environment (strings of fewer than %d items only), V=\"\" (must mean unset), V=\"x y\"} x {shell.Expand, shell.Fields}; HOME=%s on both sides. Expand is compared with bash's `IFS= read -r -d '' R <<__E__` of the string (the newline the here-document appends is accounted for); Fields with the positional parameters after `set -f; set -- <s>` (for strings containing a newline: after `A=(<s>)`, where a newline is a word separator as in Parser.WordsSeq). error <=> bash error. Excluded and counted: skipped_trailing_backslash (a here-document body cannot end in an unescaped backslash: bash 5.2 yields a stray 0xFF byte at EOF; for Fields only when the string also has a newline); cmdsubst_refused (the string contains `$(` and shell.Expand/Fields returned an error: command substitution is unsupported by design, so any error is accepted; when it returns a result instead, that result is compared with bash). `$$` is normalised to the text PID on both sides (strings holding `$$` only). distinct = distinct (function, result or error kind)", c25ReplWords, c25OtherOps, c25ArithTexts, vc.Pick(c, "", ", XNY"), maxLen, c25Alphabet, maxLen, c25Home)
 	c.Assumptions = []string{
 		"bash 5.2.15 (LC_ALL=C.utf8) is the oracle; its stderr is ignored and an error is recognised by the result variable not being produced",
 		"for env==nil the checker's own process environment is prepared (V unset, HOME=" + c25Home + ", $=PID)",
@@ -86,6 +165,13 @@ func c25(c *vc.Ctx) {
 HOME=` + c25Home + `; set -f; unset a d
 `
 	complete := vc.RunBatch(c, 2000, func(emit func(c25Case)) {
+		// the composite items first: a budget-limited run must reach them
+		c25GenComposite(!c.Quick(), func(s string) {
+			for env := 0; env < 3; env++ {
+				emit(c25Case{"Expand", s, env})
+				emit(c25Case{"Fields", s, env})
+			}
+		})
 		enum.Seqs(c25Alphabet, maxLen, func(seq []string) {
 			s := strings.Join(seq, "")
 			env0 := 0
@@ -115,6 +201,10 @@ HOME=` + c25Home + `; set -f; unset a d
 			}
 			var code, want string
 			var shErr error
+			// the pid can only be part of a result when the string holds "$$"
+			// (the composite items evaluate to digits outside 0-3, which a
+			// blind replacement of the pid could hit)
+			hasPid := strings.Contains(t.S, "$$")
 			switch t.Fn {
 			case "Expand":
 				var out string
@@ -127,7 +217,10 @@ HOME=` + c25Home + `; set -f; unset a d
 					continue
 				}
 				want = "0:" + out + "\n"
-				code = "set --; " + setV + "eval " + oracle.ShQuote("IFS= read -r -d '' R <<__E__\n"+t.S+"\n__E__") + "; R=${R//$$/" + c25Pid + "}"
+				code = "set --; " + setV + "eval " + oracle.ShQuote("IFS= read -r -d '' R <<__E__\n"+t.S+"\n__E__")
+				if hasPid {
+					code += "; R=${R//$$/" + c25Pid + "}"
+				}
 			case "Fields":
 				var out []string
 				if f := guard(key, func() { out, shErr = shell.Fields(t.S, envf) }); f != nil {
@@ -144,7 +237,11 @@ HOME=` + c25Home + `; set -f; unset a d
 				} else {
 					code = "set --; " + setV + "eval " + oracle.ShQuote("set -- "+t.S)
 				}
-				code += ` && { printf -v R '<%s>' "$@"; R="$#:${R//$$/` + c25Pid + `}"; }`
+				if hasPid {
+					code += ` && { printf -v R '<%s>' "$@"; R="$#:${R//$$/` + c25Pid + `}"; }`
+				} else {
+					code += ` && { printf -v R '<%s>' "$@"; R="$#:$R"; }`
+				}
 			default:
 				panic("bad fn " + t.Fn)
 			}
